@@ -199,12 +199,13 @@ def run_e2e(ctx):
     from vlib.valuecheck import build_cases, evaluate
     from vlib.kitchen import run_cases
     classes = {"bound", "number-valid", "optional-absent", "null-allowed", "valid"}
-    sysm = e2e_systematic(ctx) + e2e_edges()
+    from vlib.pairwise import pairwise, sized_enum
+    sysm = e2e_systematic(ctx) + e2e_edges() + [r for _, r in pairwise(types=["integer", "number"])]
     n = 20 if ctx.tier == "quick" else 300
     cases = build_cases(ctx, len(sysm) + n, ["integer", "number"], classes | {"type"}, "c05x", extra_schemas=sysm, docs_per=2,
                         gen_kwargs={"allow_formats": False, "allow_enums": False})
     # the integer half again under --min-sized-ints: the property quantifies over every option combination
-    ints = e2e_edges() + [r for r in sysm + e2e_fractional() if '"integer"' in json.dumps(r)][::2]
+    ints = e2e_edges() + [r for r in sysm + e2e_fractional() if '"integer"' in json.dumps(r) and not sized_enum(r)][::2]
     ms = build_cases(ctx, len(ints), ["integer"], classes | {"type"}, "c05m", extra_schemas=ints, docs_per=2, minsized=True,
                      gen_kwargs={"allow_formats": False, "allow_enums": False})
     for c in ms:
